@@ -135,6 +135,90 @@ fn expect(op: &TOp, pool: &[Vec<scnr::ScannerMode>], inputs: &[String], shared: 
     }
 }
 
+fn hammer(case: &Case) -> CheckResult {
+    let threads = case.extra["threads"].as_u64().unwrap_or(8).clamp(2, 64) as usize;
+    let rounds = case.extra["rounds"].as_u64().unwrap_or(10).clamp(1, 1000) as usize;
+    let modes = vec![scnr::ScannerMode::new(
+        "H",
+        vec![
+            scnr::Pattern::new("[\\u{E0}-\\u{FF}]+".to_string(), 0),
+            scnr::Pattern::new("[a-z]+".to_string(), 1),
+            scnr::Pattern::new("[\\u{400}-\\u{4FF}]+".to_string(), 2),
+            scnr::Pattern::new("\\s+".to_string(), 3),
+            scnr::Pattern::new("\\pL".to_string(), 4),
+            scnr::Pattern::new("[^\\x00-\\x7F]".to_string(), 5),
+        ],
+        vec![],
+    )];
+    // pairs of characters whose code points coincide modulo a power of two
+    let families: Vec<String> = vec![
+        "\u{E9}\u{4E9}".into(),
+        "\u{E9}\u{1E9}".into(),
+        "a\u{461}".into(),
+        "\u{E9}\u{100E9}".into(),
+        "\u{1000E9}\u{E9}".into(),
+        "\u{E9}\u{129}\u{10E9} ".into(),
+        "\u{4E9}\u{E9} \u{8E9}".into(),
+        "x\u{E0}\u{420}\u{10420}".into(),
+    ];
+    let inputs: Arc<Vec<String>> = Arc::new(families.iter().map(|f| f.repeat(3000)).collect());
+    let shared = match guard(|| scnr::ScannerBuilder::new().add_scanner_modes(&modes).build()) {
+        Ok(Ok(s)) => Arc::new(s),
+        Ok(Err(e)) => return Err(Failure::new("c14.hammer_setup", format!("configuration does not build: {}", e))),
+        Err(p) => return Err(Failure::panic("c14.panic", "building panicked", p)),
+    };
+    let expected: Vec<Vec<Tok>> = match guard(|| {
+        let fresh = scnr::ScannerBuilder::new().add_scanner_modes(&modes).build_uncached().unwrap();
+        inputs.iter().map(|i| scan(&fresh, i, usize::MAX).0).collect()
+    }) {
+        Ok(e) => e,
+        Err(p) => return Err(Failure::panic("c14.panic", "sequential scan panicked", p)),
+    };
+    let expected = Arc::new(expected);
+    let barrier = Arc::new(Barrier::new(threads));
+    let mut handles = Vec::new();
+    for t in 0..threads {
+        let (inputs, shared, expected, barrier) = (inputs.clone(), shared.clone(), expected.clone(), barrier.clone());
+        handles.push(std::thread::spawn(move || -> Result<u64, String> {
+            run::install_panic_hook();
+            barrier.wait();
+            let mut n = 0;
+            for r in 0..rounds {
+                let k = (t + r) % inputs.len();
+                match guard(|| scan(&shared, &inputs[k], usize::MAX).0) {
+                    Err(p) => return Err(format!("scan panicked: {}", p)),
+                    Ok(toks) => {
+                        if toks != expected[k] {
+                            let at = toks.iter().zip(expected[k].iter()).position(|(a, b)| a != b).unwrap_or(toks.len().min(expected[k].len()));
+                            return Err(format!(
+                                "thread {} round {}: tokens differ from the sequential scan at token {}: {:?} instead of {:?}",
+                                t, r, at, toks.get(at), expected[k].get(at)
+                            ));
+                        }
+                        n += toks.len() as u64;
+                    }
+                }
+            }
+            Ok(n)
+        }));
+    }
+    let mut st = CaseStats::default();
+    let mut failure = None;
+    for h in handles {
+        match h.join() {
+            Ok(Ok(n)) => st.add("hammer_tokens", n),
+            Ok(Err(e)) => failure = failure.or(Some(e)),
+            Err(_) => failure = failure.or(Some("a thread died".to_string())),
+        }
+    }
+    if let Some(e) = failure {
+        return Err(Failure::new("c14.hammer", format!("{} threads scanning one shared scanner over long inputs of colliding characters: {}", threads, e)));
+    }
+    st.count("hammer_cases");
+    st.nontrivial = true;
+    Ok(st)
+}
+
 fn churn(case: &Case) -> CheckResult {
     use std::sync::atomic::AtomicBool;
     let n = |k: &str, d: usize| case.extra[k].as_u64().map(|x| x as usize).unwrap_or(d);
@@ -244,7 +328,7 @@ impl Check for C14 {
         "C14"
     }
     fn rule(&self) -> &'static str {
-        "static: the check binary only compiles if scnr::Scanner: Send + Sync; dynamic case = pool of 2-4 configurations (near-identical variants and one failing configuration) with nonce'd mode names, 2-3 inputs, one shared Arc<Scanner>, 2-8 thread programs of build(k) through the shared cache (first build of a key is a miss, later ones hits, failing builds) | scan on the shared scanner (full or partial) | private build_uncached + scan, with per-operation spin/yield counts from the choice stream and a barrier-aligned start, repeated 20 times with fresh nonces; plus fixed cache-churn cases (6 threads re-building 8 long-lived keys in a tight loop while 6 threads insert 2 500 new keys each); oracle = every observation of every thread equals the observation of the same operation executed sequentially on uncached scanners; no panic (a poisoned cache lock shows as a panic of a later build), no-progress watchdog; non-trivial = repetition in which >= 2 threads build the same key (hit while another inserts) or >= 2 threads iterate the shared scanner"
+        "static: the check binary only compiles if scnr::Scanner: Send + Sync; dynamic case = pool of 2-4 configurations (near-identical variants and one failing configuration) with nonce'd mode names, 2-3 inputs, one shared Arc<Scanner>, 2-8 thread programs of build(k) through the shared cache (first build of a key is a miss, later ones hits, failing builds) | scan on the shared scanner (full or partial) | private build_uncached + scan, with per-operation spin/yield counts from the choice stream and a barrier-aligned start, repeated 20 times with fresh nonces; plus fixed cache-churn cases (6 threads re-building 8 long-lived keys in a tight loop while 6 threads insert 2 500 new keys each) and shared-scan hammer cases (8 threads, long inputs of characters coinciding modulo 2^6..2^20); oracle = every observation of every thread equals the observation of the same operation executed sequentially on uncached scanners; no panic (a poisoned cache lock shows as a panic of a later build), no-progress watchdog; non-trivial = repetition in which >= 2 threads build the same key (hit while another inserts) or >= 2 threads iterate the shared scanner"
     }
     fn assumptions(&self) -> Vec<String> {
         vec!["schedules are sampled on real threads, not enumerated; the thorough tier adds a ThreadSanitizer build and Miri with seeded preemptive schedules on small programs".into()]
@@ -267,12 +351,22 @@ impl Check for C14 {
         // insert thousands of new keys (a cache with a size limit / eviction, or a lookup split
         // into several lock acquisitions, only shows under this load)
         let n = if thorough { 6 } else { 2 };
-        (0..n)
+        let mut v: Vec<Case> = (0..n)
             .map(|i| Case {
                 extra: json!({"kind": "churn", "hit_threads": 6, "miss_threads": 6, "fresh_per_thread": 2500, "fixed_keys": 8, "round": i}),
                 ..Case::default()
             })
-            .collect()
+            .collect();
+        // long concurrent scans of one shared scanner over characters that coincide modulo
+        // 2^6 ... 2^20 (anything memoised per character or per class behind the shared predicate
+        // is hit with colliding keys from several threads at once)
+        for i in 0..n {
+            v.push(Case {
+                extra: json!({"kind": "hammer", "threads": 8, "rounds": if thorough { 40 } else { 12 }, "round": i}),
+                ..Case::default()
+            });
+        }
+        v
     }
     fn generate(&self, d: &mut Dec, thorough: bool) -> Case {
         let p = GenParams {
@@ -361,6 +455,9 @@ impl Check for C14 {
     fn check(&self, case: &Case) -> CheckResult {
         if case.extra["kind"].as_str() == Some("churn") {
             return churn(case);
+        }
+        if case.extra["kind"].as_str() == Some("hammer") {
+            return hammer(case);
         }
         let Some(pool) = pool_of(case) else {
             return Ok(CaseStats::default());
